@@ -157,6 +157,7 @@ type Engine struct {
 	ufCalls     []ufCall
 	ghost       map[string]value
 	pipes       map[*value]*pipeState
+	timers      []*timerRec
 
 	fnInfos       map[*ssa.Function]*fnInfo
 	regionFail    map[*ssa.If]int
@@ -689,6 +690,7 @@ func (e *Engine) runPath(it workItem) {
 	e.mergeDepth = 0
 	e.ufCalls = nil
 	e.pipes = nil
+	e.timers = nil
 	e.ghost = nil
 	defer e.undoAll()
 	defer func() {
